@@ -59,6 +59,14 @@ theorem applyOptions_ok : Extracted.Build.applyOptions = Expected.Build.applyOpt
 models) and both on the other path -/
 theorem applyOptions_nil_resets_ok : Extracted.Build.applyNilAssigns = ["always", "dryrun"] := by decide
 theorem applyOptions_sets_ok : Extracted.Build.applySetAssigns = ["always", "dryrun"] := by decide
+theorem builtinRun_ok : Extracted.Build.builtinRun = Expected.Build.builtinRun := rfl
+/-- the REPL builtin `run`: the generated wrapper passes its variables in the order of `builtin_run`'s parameters, and
+each keyword is unpacked into the variable of the same meaning (`always` / `dry_run` are adjacent bools: a swap would
+type-check) -/
+theorem run_wrapper_order_ok : Extracted.Build.runWrapperArgs = Extracted.Build.runParams := by decide
+theorem run_params_ok : Extracted.Build.runParams = ["thread", "fn", "labelOrTarget", "always", "dryRun", "callback"] := by decide
+theorem run_keywords_ok : Extracted.Build.runWrapperKeywords =
+    ["label_or_target→labelOrTarget", "always??→always", "dry_run??→dryRun", "callback??→callback"] := by decide
 theorem saveIndex_ok : Extracted.Build.saveIndex = Expected.Build.saveIndex := rfl
 theorem indexInfo_ok : Extracted.Build.indexInfo = Expected.Build.indexInfo := rfl
 
